@@ -64,6 +64,7 @@ type mAgglayer struct {
 	calls       map[string]int
 	onSubmit    func(c *mCert)
 	headerPrev  bool // whether newly received certificates will carry prev LER in their header
+	expectFEP   bool // the node runs the aggchain-prover flow: FEP certificate type and FEP signing commitment
 	outOfDomain int  // imported exits skipped by the C09 oracle because their GER is above the finalized L1 info leaf
 }
 
@@ -316,8 +317,12 @@ func (m *mAgglayer) checkSubmission(mc *mCert) {
 	}
 	// ---- C03: content follows from the block range
 	if ok {
-		if ct != aggsendertypes.CertificateTypePP.ToInt() {
-			m.violate("C03", "%s metadata carries certificate type %d", desc, ct)
+		wantType := aggsendertypes.CertificateTypePP.ToInt()
+		if m.expectFEP {
+			wantType = aggsendertypes.CertificateTypeFEP.ToInt()
+		}
+		if ct != wantType {
+			m.violate("C03", "%s metadata carries certificate type %d, want %d", desc, ct, wantType)
 		}
 		if to < from || to > m.w.lastL2Block() {
 			m.violate("C03", "%s covers blocks [%d,%d] but the L2 chain ends at %d", desc, from, to, m.w.lastL2Block())
@@ -479,6 +484,19 @@ func (m *mAgglayer) checkClaimProofs(mc *mCert, desc string) {
 
 func (m *mAgglayer) checkSignature(mc *mCert, desc string) {
 	c := mc.Cert
+	if m.expectFEP {
+		pd, ok := c.AggchainData.(*agglayertypes.AggchainDataProof)
+		if !ok || len(pd.Signature) != 65 {
+			m.violate("C10", "%s carries no aggchain proof with a 65-byte signature", desc)
+			return
+		}
+		commit := refFEPCommitment(c)
+		pub, err := crypto.SigToPub(commit.Bytes(), normSig(pd.Signature))
+		if err != nil || crypto.PubkeyToAddress(*pub) != verifSignerAddr {
+			m.violate("C10", "%s: signature does not recover to the configured signer over the FEP commitment of the certificate's content", desc)
+		}
+		return
+	}
 	sd, ok := c.AggchainData.(*agglayertypes.AggchainDataSignature)
 	if !ok || len(sd.Signature) != 65 {
 		m.violate("C10", "%s carries no 65-byte signature", desc)
